@@ -173,6 +173,10 @@ func (f *Formatter) formatComment(comments ast.Comments, sep string, level int) 
 			buf.WriteString(comments[i].String())
 		}
 		buf.WriteString(sep)
+		// Inline comments (no separator) that follow each other need a white space between them
+		if sep == "" && i < len(comments)-1 {
+			buf.WriteString(" ")
+		}
 	}
 
 	return buf.String()
